@@ -31,31 +31,6 @@ def classify(prop, f, tr, trace_text):
         key = (m.group(1), m.group(2)) if m else None
         pubs = [p for p, w in ops if w[0] == 'addasset' and (w[1], w[2]) == key]
         mp = re.search(r'peer (\d+) holds', f['what'])
-        if key is not None and mp and key[0] in ('1', '2', '3'):
-            # S26: the stale peer joined (the host handled its RequestInitialSync) while the host's own
-            # download of an announced version of the id was still pending: the snapshot handed out the
-            # host's old copy and the completed download is debounced, never announced
-            stale = mp.group(1)
-            cls = {'1': 'mesh', '2': 'image', '3': 'audio'}[key[0]]
-            pending, window = 0, False
-            for ev in tr['events']:
-                if ev[0] != 'frame' or ev[1].peer != 0:
-                    continue
-                fr = ev[1]
-                words = [l.split() for l in fr.lines]
-                announced = sum(1 for _, m in fr.rcv if m[0] == 'asset' and m[1] == cls and m[2] == key[1])
-                applied = sum(1 for w in words if w[0] == 'DL' and w[2] == key[0] and w[3] == key[1])
-                idle = any(w[0] == 'XFER' and w[2:5] == ['active=0', 'queued=0', 'toapply=0'] for w in words)
-                joined = any(m[0] == 'reqinit' and frm == stale for frm, m in fr.rcv)
-                # downloads requested in this frame cannot have been applied before its commands run
-                pending += announced
-                if joined and pending > 0:
-                    window = True
-                pending = max(0, pending - applied)
-                if idle and not announced:
-                    pending = 0          # completed downloads of one id may have been applied as one
-            if window:
-                return 'S26-join-during-host-download'
         if key is not None:
             # S23: the host relays live asset traffic of a class it has disabled, but leaves the class out
             # of the snapshot it sends to later joiners
